@@ -132,6 +132,25 @@ def register(M):
         m = as_assoc(ex, ex.read_path(cell, path))
         return z3.BoolVal(find(ex, m, M.load(ex, a[1]) if isinstance(ex.materialize(a[1]), Ref) else a[1]) is not None)
 
+    @reg('HashSet::remove')
+    def _(ex, info, a, dty):
+        cell, path = ex.deref(a[0])
+        m = as_assoc(ex, ex.read_path(cell, path))
+        key = M.load(ex, a[1]) if isinstance(ex.materialize(a[1]), Ref) else a[1]
+        i = find(ex, m, key)
+        if i is None:
+            return z3.BoolVal(False)
+        ex.write_path(cell, path, m.set(entries=m.entries[:i] + m.entries[i + 1:]))
+        return z3.BoolVal(True)
+
+    def set_extend(ex, cell, path, items):
+        """`HashSet::extend`: every item inserted unless an equal one is there"""
+        for it in items:
+            m = as_assoc(ex, ex.read_path(cell, path))
+            if find(ex, m, it) is None:
+                ex.write_path(cell, path, m.set(entries=m.entries + ((it, UNIT),)))
+    M.set_extend = set_extend
+
     @reg('HashSet::len')
     def _(ex, info, a, dty):
         cell, path = ex.deref(a[0])
